@@ -131,6 +131,18 @@ CHECKS.update({
                 text="Because the specification never inspects a name, every enumerated Layout program has the same verdict under any injective "
                      "renaming; the real generators are run on the same programs with 9 hostile dictionaries and must still create the program, "
                      "give every probe its model outcome (loader, dumper, errors, extras) and never execute supplied text (canary)."),
+    "C20": dict(technique="TLA+ spec Heap.tla (identity rules Fresh / Disjoint / OnlyAsIsAliases over an abstract heap, TLC sanity model); heap "
+                          "observations of pairs of successive equal calls recorded from the real library are judged by the total TLA+ monitor "
+                          "Trace_Heap.tla; the Layout.tla programs and the Dump.tla sweep supply the calls",
+                category="model_checking", design_ref="6/C20",
+                note="trusts: vf/props/c20.py containers() / retort_reachable() (mutable = list, dict, set, deque, bytearray, model instances; "
+                     "retort-reachable = closure cells, defaults, referenced globals of generated functions); as-is positions = Any/object "
+                     "fields, collected unknown values, same-type converter fields",
+                text="Every observation records deep snapshots of the argument before and after two successive calls and the identities of all "
+                     "mutable containers reachable from the argument, the produced callable and both results; the monitor evaluates "
+                     "arg_unchanged, repeat_equal, alias_only_as_is, no_alias_with_retort and no_shared_mutable on every line. Sources: a "
+                     "catalogue of load / dump / convert cases at every container-building site, every successful load and dump of every "
+                     "TLC-enumerated Layout program, and the dump sweep."),
     "C10": dict(technique="TLA+ spec Preds.tla (Match over predicate syntax trees and location stacks) model-checked by TLC: documented "
                           "identities as invariants; per-expression verdict vectors replayed on the real checkers",
                 category="model_checking", design_ref="6/C10",
